@@ -119,6 +119,7 @@ type concObs struct {
 	RawQuery string              `json:"raw_query"`
 	Query    map[string][]string `json:"query"`
 	ParseErr string              `json:"parse_err"`
+	BodyLen  int                 `json:"body_len"`
 }
 
 // concChild runs one hammering in this (child) process and prints what was seen: a fatal
@@ -141,7 +142,7 @@ func concChild(spec string, stdout *os.File) {
 	var res []concObs
 	for _, k := range keys {
 		o := seen[k]
-		res = append(res, concObs{o.rid, o.be, o.headers, o.rawQuery, o.query, o.parseErr})
+		res = append(res, concObs{o.rid, o.be, o.headers, o.rawQuery, o.query, o.parseErr, o.bodyLen})
 	}
 	json.NewEncoder(stdout).Encode(res)
 }
